@@ -314,12 +314,242 @@ def run_case(c):
     return out
 
 
+# ---------------------------------------------------------------------------
+# sessions: results / summaries are stateful (caches `_paths`, `_names`, `_instance`, Result.model); child results of
+# combined / free-parameter analyses are made by SamplesSummary.subsamples from a summary that may have been read before
+# ---------------------------------------------------------------------------
+class SessionAnalysis(af.Analysis):
+    def log_likelihood_function(self, instance):
+        return -1.0
+
+
+def sub_models(model):
+    """Every prior model strictly inside `model` holding at least one prior: [(attribute path, object)], sorted by path."""
+    from autofit.mapper.prior_model.abstract import AbstractPriorModel
+    out = []
+
+    def rec(obj, path):
+        for k, v in obj.__dict__.items():
+            if k.startswith("_") or k in ("id", "cls"):
+                continue
+            if isinstance(v, AbstractPriorModel):
+                if v.prior_count > 0:
+                    out.append((path + (k,), v))
+                rec(v, path + (k,))
+    rec(model, ())
+    out.sort(key=lambda t: t[0])
+    return out
+
+
+def build_joint(c, model, pool):
+    """The joint model of a session and (when the library offers one) the combined analysis that makes child results."""
+    shape = c["shape"]
+    analysis = None
+    if shape == "free":
+        free = [pool[i] for i in c["free"]]
+        total = SessionAnalysis()
+        for _ in range(c["n_children"] - 1):
+            total = total + SessionAnalysis()
+        analysis = total.with_free_parameters(*free)
+        joint = analysis.modify_model(model)
+    elif shape == "renamed":
+        joint = af.Collection(m=model)
+        for key, i in c["rename"]:
+            setattr(joint, key, pool[i])
+    elif shape == "items":
+        from autofit.mapper.prior_model.abstract import AbstractPriorModel
+        from autofit.mapper.prior_model.collection import Collection
+        from autofit.non_linear.analysis.indexed import IndexCollectionAnalysis
+        joint = model
+        if isinstance(model, Collection) and len(model) > 0 and all(isinstance(v, AbstractPriorModel) and v.prior_count > 0 for v in model):
+            analysis = IndexCollectionAnalysis(*[SessionAnalysis() for _ in model])
+    else:
+        raise ValueError(shape)
+    return joint, analysis
+
+
+def session_read(result, op, c, others):
+    """One read of a result / its summary. Returns a JSON observable (vectors as hex lists, otherwise a marker)."""
+    summary = result.samples_summary
+    if op == "maxl_vec":
+        return {"vec": [hexf(v) for v in summary.max_log_likelihood(as_instance=False)]}
+    if op == "median_vec":
+        return {"vec": [hexf(v) for v in summary.median_pdf(as_instance=False)]}
+    if op == "prior_means":
+        return {"means": [hexf(v) for v in summary.prior_means]}
+    if op == "maxl_inst":
+        summary.max_log_likelihood()
+        return {}
+    if op == "instance":
+        result.instance
+        summary.instance
+        return {}
+    if op == "max_log_likelihood_instance":
+        result.max_log_likelihood_instance
+        return {}
+    if op == "paths":
+        return {"n": len(summary.paths)}
+    if op == "names":
+        return {"n": len(summary.names)}
+    if op == "model":
+        return {"count": result.model.prior_count}
+    if op == "model_absolute":
+        return {"count": result.model_absolute(0.5).prior_count}
+    if op == "model_relative":
+        return {"count": result.model_relative(0.25).prior_count}
+    if op == "model_bounded":
+        return {"count": result.model_bounded(0.75).prior_count}
+    if op == "subsamples_other":
+        if others:
+            o = summary.subsamples(others[0])
+            jm = {p.id: i for i, p in enumerate(summary.model.priors_ordered_by_id)}
+            return {"other_means": [hexf(v) for v in o.prior_means],
+                    "other_to_joint": [jm.get(p.id, -1) for p in others[0].priors_ordered_by_id]}
+        return {}
+    raise ValueError(op)
+
+
+def run_session(c):
+    from autofit.non_linear.samples.sample import Sample
+    from autofit.non_linear.samples.summary import SamplesSummary
+    prog = c["program"]
+    pool = [make_prior(s) for s in prog["pool"]]
+    model = vbuild.build_expr(af, prog["root"], pool)
+    joint, analysis = build_joint(c, model, pool)
+    jpriors = joint.priors_ordered_by_id
+    nj = len(jpriors)
+    jmap = {p.id: i for i, p in enumerate(jpriors)}
+    maxl = [unhex(x) for x in c["maxl"]][:nj]
+    med = [unhex(x) for x in c["median"]][:nj]
+    out = {"n_joint": nj, "enough_values": len(maxl) == nj and len(med) == nj}
+    if not out["enough_values"] or nj == 0:
+        return out
+    s_max = Sample.from_lists(joint, [maxl], [1.0], [0.0], [1.0])[0]
+    s_med = None if c.get("no_median") else Sample.from_lists(joint, [med], [0.5], [0.0], [1.0])[0]
+    summary = SamplesSummary(max_log_likelihood_sample=s_max, median_pdf_sample=s_med, model=joint)
+    parent = af.Result(samples_summary=summary, paths=None)
+    cands = sub_models(joint)
+    out["n_candidates"] = len(cands)
+    if not cands:
+        return out
+    # the chain of children: each step picks a prior model inside the current one
+    chain = []
+    cur = joint
+    for pick in c["chain"]:
+        cc = sub_models(cur)
+        if not chain and c.get("top"):
+            cc = [x for x in cc if len(x[0]) == 1] or cc
+        if not cc:
+            break
+        path, cur = cc[pick % len(cc)]
+        chain.append((path, cur))
+    out["chain"] = [list(p) for p, _ in chain]
+    child_model = chain[-1][1]
+    sib = [m for p, m in cands if m is not chain[0][1]]
+    state = {"child": None, "route": None}
+
+    def make_child():
+        first_path, first = chain[0]
+        res = None
+        if c["route"] == "make_result" and analysis is not None and len(first_path) == 1:
+            combined = analysis.make_result(samples_summary=summary, paths=None)
+            kids = list(combined.child_results)
+            idx = [i for i, m in enumerate(joint) if m is first]
+            if len(idx) == 1 and len(kids) == len(joint):
+                res = kids[idx[0]]          # whether it really is the result for `first` is reported (child_is_model)
+                state["route"] = "make_result"
+        if res is None:
+            res = af.Result(samples_summary=summary.subsamples(first), paths=None)
+            state["route"] = "subsamples"
+        for step in c.get("chain_reads") or []:          # reads on the intermediate result before going deeper
+            if len(chain) > 1:
+                session_read(res, step, c, [])
+        for _, deeper in chain[1:]:
+            res = af.Result(samples_summary=res.samples_summary.subsamples(deeper), paths=None)
+        state["child"] = res
+
+    log = []
+    for target, op in c["steps"]:
+        if target == "mk":
+            log.append(["mk", op, guarded(make_child)])
+        elif target == "P":
+            log.append(["P", op, guarded(lambda: session_read(parent, op, c, sib))])
+        elif target == "C" and state["child"] is not None:
+            log.append(["C", op, guarded(lambda: session_read(state["child"], op, c, []))])
+    if state["child"] is None:
+        log.append(["mk", "late", guarded(make_child)])
+    out["log"] = log
+    out["route"] = state["route"]
+    child = state["child"]
+    if child is None:
+        return out
+    cpri = child_model.priors_ordered_by_id
+    cmap = {p.id: i for i, p in enumerate(cpri)}
+    out["to_joint"] = [jmap.get(p.id, -1) for p in cpri]
+    corig = describe(child_model, cmap, None)
+    corig["specs"] = [spec_of(p) for p in cpri]
+    out["orig"] = corig
+    out["child_is_model"] = child.samples_summary.model is child_model
+    # the values the joint fit inferred for the child's parameters, by parameter identity
+    if all(j >= 0 for j in out["to_joint"]):
+        want_max = [maxl[j] for j in out["to_joint"]]
+        want_med = want_max if c.get("no_median") else [med[j] for j in out["to_joint"]]
+    else:
+        want_max = want_med = None
+    mode = c["mode"]
+    k = mode["k"]
+    a = None if mode.get("a") is None else unhex(mode["a"])
+    r = None if mode.get("r") is None else unhex(mode["r"])
+    b = None if mode.get("b") is None else unhex(mode["b"])
+
+    def passing():
+        if k == "bounded":
+            return child.model_bounded(b)
+        if a is not None:
+            return child.model_absolute(a)
+        if r is not None:
+            return child.model_relative(r)
+        return child.model
+    try:
+        nm = passing()
+        out["out"] = {"ok": describe(nm, cmap, None)}
+        out["orig_unchanged"] = describe(child_model, cmap, None)["tree"] == corig["tree"]
+    except BaseException as e:  # noqa
+        import traceback
+        out["out"] = {"exc": exc_kind(e), "msg": traceback.format_exc()[-500:]}
+    # the same passing call made directly on the child's model with the child's own values (stateless route)
+    if want_max is not None:
+        def direct():
+            if k == "bounded":
+                dm = child_model.mapper_from_uniform_floats(want_max, b)
+            else:
+                dm = child_model.mapper_from_prior_means(want_med, a=a, r=r)
+            dd = describe(dm, cmap, None)
+            return {"tree": dd["tree"], "priors": dd["priors"], "paths": dd["paths"]}
+        out["direct"] = guarded(direct)
+        out["inst_expected"] = guarded(lambda: vbuild.abstract_instance(af, child_model.instance_from_vector(want_max, ignore_prior_limits=True)))
+    out["vec_maxl"] = guarded(lambda: [hexf(v) for v in child.samples_summary.max_log_likelihood(as_instance=False)])
+    out["vec_means"] = guarded(lambda: [hexf(v) for v in child.samples_summary.prior_means])
+    out["inst"] = guarded(lambda: vbuild.abstract_instance(af, child.instance))
+    # the parent still answers for the joint model after the children were made and read
+    out["parent_after"] = guarded(lambda: {"maxl": [hexf(v) for v in summary.max_log_likelihood(as_instance=False)],
+                                           "means": [hexf(v) for v in summary.prior_means],
+                                           "model_is_joint": summary.model is joint})
+    # for the Coq model of the summary: joint tree and child tree under the joint numbering, the samples as (path, value)
+    jid = dict(jmap)
+    out["joint_tree"] = vbuild.abstract_model(af, joint, jid)
+    out["child_tree_joint_ids"] = vbuild.abstract_model(af, child_model, jid)
+    out["chain_trees"] = [vbuild.abstract_model(af, m, jid) for _, m in chain]
+    out["kw_max"] = [[list(map(str, p)), hexf(v)] for p, v in s_max.kwargs.items()]
+    return out
+
+
 def main():
     cases = json.load(open(sys.argv[1]))["cases"]
     res = []
     for c in cases:
         try:
-            res.append({"ok": run_case(c)})
+            res.append({"ok": run_session(c) if c.get("kind") == "session" else run_case(c)})
         except BaseException as e:  # noqa
             import traceback
             res.append({"exc": exc_name(e), "msg": traceback.format_exc()[-700:]})
